@@ -48,14 +48,16 @@ Record block := {
 Record cfg := {
   cap : nat;                    (* BlockStore::CACHE_CAPACITY *)
   first_block : Z;              (* genesis.first_block *)
-  epochs : list (Z * Z)         (* epoch_schedule: epoch number -> committee id *)
+  epochs : list (Z * Z)         (* epoch_schedule: (epoch number, committee id) *)
 }.
 
-Fixpoint lookup_epoch (e : Z) (m : list (Z * Z)) : option Z :=
-  match m with
-  | [] => None
-  | (k, v) :: m' => if k =? e then Some v else lookup_epoch e m'
-  end.
+(* The epoch map is a relation (epoch number, committee id).  For a map (unique keys, as the
+   BTreeMap epoch_schedule is) "some pair matches" is the same as "the stored value matches";
+   the relational form lets a history of maps be used as one configuration in the theorems. *)
+Definition has_epoch (e : Z) (m : list (Z * Z)) : bool :=
+  existsb (fun kv => fst kv =? e) m.
+Definition has_epoch_sched (e s : Z) (m : list (Z * Z)) : bool :=
+  existsb (fun kv => (fst kv =? e) && (snd kv =? s)) m.
 
 Inductive verr := EPreBound | EPreVerify | EEpochUnknown | EBlockVerify.
 
@@ -66,10 +68,10 @@ Definition verify (c : cfg) (b : block) : outcome verr unit :=
       if first_block c <=? bnum b then Err EPreBound
       else if bgood b then Ok tt else Err EPreVerify
   | KFinal =>
-      match lookup_epoch (bepoch b) (epochs c) with
-      | None => Err EEpochUnknown
-      | Some s => if bgood b && (s =? bsched b) then Ok tt else Err EBlockVerify
-      end
+      if has_epoch (bepoch b) (epochs c) then
+        if bgood b && has_epoch_sched (bepoch b) (bsched b) (epochs c) then Ok tt
+        else Err EBlockVerify
+      else Err EEpochUnknown
   end.
 
 Definition verified (c : cfg) (b : block) : bool :=
